@@ -16,6 +16,7 @@ import os
 import re
 
 import conn
+import explore
 from facts import FactError
 from report import VERIF
 
@@ -250,6 +251,33 @@ def check(run, F, tier):
             r2c.violation(meth, "dispatch_send reaches %s under %s, expected exactly %s" % (meth, [sorted(x) for x in sel.get(meth, [])], sorted(want)))
 
     # ------------------------------------------------------------------ R3 / R4
+    # ------------------------------------------------------------------ R2v: compile-time version table
+    r2v = run.rule("C11-R2v", "SendableVersion::check of every packet type is `version == the packet's own version` (evaluated for each Version value)", floor=29, kind="E")
+    vvars = [v["name"] for v in F.adt(conn.VERSION)["variants"]]
+    svs = sorted(pth for pth in F.fns if pth.endswith("as mqtt::connection::sendable_version::SendableVersion>::check"))
+    for pth in svs:
+        g = F.fns[pth]
+        m = re.match(r"^mqtt::packet::(v3_1_1|v5_0)::", g.get("impl_self", ""))
+        key = g.get("impl_self", pth).split("<")[0].replace("mqtt::packet::", "")
+        if not m:
+            r2v.note("%s: not a versioned packet type, skipped" % key)
+            continue
+        own = "V3_1_1" if m.group(1) == "v3_1_1" else "V5_0"
+        an = g.get("names", {}).get("1", "version")
+        got = {}
+        for vn in vvars:
+            def setup_v(exx, st, fr, vn=vn):
+                st.heap[(("arg", an), ())] = ("agg", conn.VERSION, vn, ())
+            exv = explore.Explorer(F)
+            rets = [p_.ret for p_ in exv.run(pth, setup=setup_v) if p_.kind == "return"]
+            got[vn] = rets[0][1] == 1 if (len(rets) == 1 and rets[0][0] == "c") else None
+        want = {vn: (vn == own) for vn in vvars}
+        if got == want:
+            r2v.ok(key, own)
+        else:
+            r2v.violation(key, "SendableVersion::check for %s answers %s, expected true exactly for %s (send() compares the versions for equality: the "
+                          "compile-time-checked and the run-time-checked API would disagree)" % (key, got, own), site="%s:%s" % (g["file"], g["line"]))
+
     r3 = run.rule("C11-R3", "state table: emission / acceptance per status x need_store x offline_publish x QoS equals the MQTT state rules", floor=29 * 12, kind="E")
     r4 = run.rule("C11-R4", "refused send leaves no trace: refusal paths write only the id manager or undo their own insertion", floor=29)
     STAT = ["Disconnected", "Connecting", "Connected"]
